@@ -1,6 +1,7 @@
 package ext
 
 import (
+	lang "github.com/alligator/jqawk/src"
 	"github.com/alligator/jqawk/zzverif/vh"
 )
 
@@ -263,4 +264,65 @@ func VHC06UnarySuffixAssign() {
 		vh.Assert(k == ErrSyntax, "C06 assignment to a non-assignable target is a syntax error")
 	}
 	vh.Reach("template evaluated")
+}
+
+// sameOutcome: two evaluations agree in outcome kind and, on success, in value.
+func sameOutcome(c1 *lang.Cell, k1 int, c2 *lang.Cell, k2 int) bool {
+	if k1 != k2 {
+		return false
+	}
+	if k1 != OK {
+		return true
+	}
+	if c1 == nil || c2 == nil || c1.Value.Tag != c2.Value.Tag {
+		return false
+	}
+	switch {
+	case isNum(c1):
+		return vh.SameFloat(*c1.Value.Num, *c2.Value.Num)
+	case isBool(c1):
+		return vh.Iff(*c1.Value.Bool, *c2.Value.Bool)
+	case isStr(c1):
+		return *c1.Value.Str == *c2.Value.Str
+	}
+	return true
+}
+
+var c06Prefix = []string{"!", "-", "+"}
+var c06PfxOperands = []string{"$.a", "$.o.k", "$.o.arr[1]", "$.o.arr.length()", "$.t", "$.s"}
+
+// VHC06Prefix: every prefix operator before every binary operator, with every kind of
+// suffixed operand: `U x B y` evaluates as `(U x) B y`, `x B U y` as `x B (U y)`, and a
+// suffix chain belongs to its operand, not to the operator expression around it.
+func VHC06Prefix() {
+	u := c06Prefix[vh.Choose("u", len(c06Prefix))]
+	ops := append(append([]string{}, c06Ops...), "~", "!~", "is")
+	b := ops[vh.Choose("b", len(ops))]
+	x := c06PfxOperands[vh.Choose("x", len(c06PfxOperands))]
+	av := vh.FloatFrom("a", c06Domain)
+	bv := vh.FloatFrom("bv", c06Domain)
+	t := vh.Bool("t")
+	s := string([]byte{vh.ByteFrom("s", "07az ")})
+	doc := map[string]any{"a": av, "b": bv, "t": t, "s": s, "o": map[string]any{"k": av, "arr": []any{bv, av}}}
+	y := "$.b"
+	if b == "is" {
+		y = []string{"number", "bool", "string"}[vh.Choose("ty", 3)]
+	}
+	side := vh.Choose("side", 2)
+	var plain, paren string
+	if side == 0 {
+		plain = u + x + " " + b + " " + y
+		paren = "(" + u + "(" + x + ")) " + b + " " + y
+	} else {
+		if b == "is" {
+			return // a prefix operator cannot precede a type name
+		}
+		plain = y + " " + b + " " + u + x
+		paren = y + " " + b + " (" + u + "(" + x + "))"
+	}
+	c1, k1, _ := evalExpr(plain, doc)
+	c2, k2, _ := evalExpr(paren, doc)
+	vh.Reach("prefix form compared")
+	vh.Assert(k1 != ErrSyntax && k2 != ErrSyntax, "C06: both spellings parse: "+plain)
+	vh.Assert(sameOutcome(c1, k1, c2, k2), "C06: `"+plain+"` means `"+paren+"`")
 }
